@@ -11,7 +11,7 @@ def main() -> int:
     import jax  # noqa: F401
     import jumanji
 
-    if not os.path.realpath(jumanji.__file__).startswith("/repo/"):
+    if not os.path.realpath(jumanji.__file__).startswith(os.path.realpath(os.environ.get("JSIM_REPO", "/repo")) + "/"):
         print(f"setup: jumanji imported from {jumanji.__file__}, expected /repo", file=sys.stderr)
         return 2
     from jsim import envs
